@@ -989,6 +989,28 @@ func ruleBsClosed(p *Prog, r *RuleResult) {
 				}
 			}
 		case "maxPosition":
+			// the field pull() compares the position with, on whichever side it is written: of the two fields of that
+			// comparison it is the one pull never stores to
+			if f := p.MethodOpt("bitstream", typ, "pull"); f != nil && f.Blocks != nil {
+				if ifi := blockIf(f.Blocks[0]); ifi != nil {
+					atom, _ := condAtom(ifi.Cond)
+					if bo, ok := atom.(*ssa.BinOp); ok {
+						stored := map[*types.Var]bool{}
+						eachInstr(f, func(i ssa.Instruction) {
+							if st, ok := i.(*ssa.Store); ok {
+								if fv := fieldVarOfAddr(st.Addr); fv != nil {
+									stored[fv] = true
+								}
+							}
+						})
+						for _, v := range []ssa.Value{bo.Y, bo.X} {
+							if fv := fieldVarOfLoad(stripConv(v)); fv != nil && !stored[fv] {
+								return fv.Name()
+							}
+						}
+					}
+				}
+			}
 			if n := first("pull", true); n != "" {
 				return n
 			}
